@@ -274,7 +274,23 @@ func (c *ctxRun) genRound() roundCase {
 }
 
 func (c *ctxRun) rsRound(rc roundCase, tag string) {
-	enc := realEncode(rc.Blob, rc.K, rc.M)
+	c.roundFinish(c.roundEncode(rc, tag))
+}
+
+// a round trip whose ErasureCode call has been made and whose ReconstructAndJoinShards call
+// is still to come (other calls may be interleaved in between)
+type pendingRound struct {
+	rc  roundCase
+	tag string
+	enc encObs
+}
+
+func (c *ctxRun) roundEncode(rc roundCase, tag string) *pendingRound {
+	return &pendingRound{rc: rc, tag: tag, enc: realEncode(rc.Blob, rc.K, rc.M)}
+}
+
+func (c *ctxRun) roundFinish(p *pendingRound) {
+	rc, tag, enc := p.rc, p.tag, p.enc
 	info := map[string]any{"kind": "round", "tag": tag, "k": rc.K, "m": rc.M, "blob_len": len(rc.Blob),
 		"blob_hex": fmt.Sprintf("%x", rc.Blob), "erased": rc.Erased, "pattern": rc.Pattern}
 	recS, postS := "Panic", "[]"
